@@ -18,9 +18,13 @@ RULE = ("seeded generator of .sm texts: header tags in varying order with commen
         "1..3 charts over every chart type with a declared key count, measures of 4..48 and 192 rows, all symbols "
         "1 2 3 4 M L F K with holds/rolls spanning measures, comments between rows; ~8% texts without a #STOPS tag; "
         "~12% malformed/out-of-domain texts for the correspondence only (open heads, stray tails, 6-row measures, off-grid "
-        "tempo beats, wide rows, missing tags); non-trivial = at least 3 objects or 2 tempo changes or 2 charts; "
+        "tempo beats, wide rows, missing tags); a quarter of the texts are written to disk (their utf-8 bytes) and read through the "
+        "file-level wrapper SMMapSet.read_file(path) instead of SMMapSet.read(text); non-trivial = at least 3 objects or 2 tempo changes or 2 charts; "
         "distinct by hash of the text")
 ASSUMPTIONS = [
+    "read_file = read after Python's text-mode decoding (utf8, universal newlines): the generated texts contain no carriage return, "
+    "so the text the model reads is the text the wrapper passes on; on a text with CR LF the two differ in the unchanged tree "
+    "(SMMapSet.read of a str with CR LF line ends mis-counts rows, read_file of the same bytes does not) - outside the dialect of c02_domb",
     "binary64 rounding inside the reader (float(text), float*Fraction, reseat divisions) is not modelled: times are compared "
     "with tolerance 1e-6 ms, tempo values with relative tolerance 1e-9; all discrete structure must be equal",
     "the decimal grammar modelled for float()/int() is [+-]digits[.digits][e[+-]digits]; inf/nan/underscores are outside the model",
@@ -238,6 +242,8 @@ def generate(rng, tier):
             cases.append({"kind": "read", "dom": True, "cmp_bpms": ex, "text": gen_text(rng, types, no_stops=True, exact_tempo=ex)})
         else:
             cases.append({"kind": "read", "dom": True, "cmp_bpms": ex, "text": gen_text(rng, types, exact_tempo=ex)})
+        if rng.random() < 0.25:
+            cases[-1]["file"] = True      # through the file-level wrapper SMMapSet.read_file(path)
     return cases
 
 
@@ -245,7 +251,15 @@ def generate(rng, tier):
 def execute(case):
     from reamber.sm.SMMapSet import SMMapSet
     try:
-        ms = SMMapSet.read(case["text"])
+        if case.get("file"):
+            import os, tempfile
+            with tempfile.TemporaryDirectory() as d:
+                path = os.path.join(d, "case.sm")
+                with open(path, "wb") as f:          # the bytes of the text, no newline translation on the way out
+                    f.write(case["text"].encode("utf8"))
+                ms = SMMapSet.read_file(path)
+        else:
+            ms = SMMapSet.read(case["text"])
     except (IndexError, ValueError, TypeError, AttributeError, ZeroDivisionError, KeyError) as e:
         return {"v": None, "exc": type(e).__name__ + ": " + str(e)[:120]}
     return {"v": G.snap_set(ms)}
@@ -270,7 +284,7 @@ def nontrivial(case, out):
 
 def bucket(case, out):
     t = case["text"]
-    k = f"charts={t.count('#NOTES')}/tempo={min(t.count('='), 4)}"
+    k = f"charts={t.count('#NOTES')}/tempo={min(t.count('='), 4)}" + ("/file" if case.get("file") else "")
     if not case.get("dom", True):
         k += "/out-of-domain"
     if "#STOPS" not in t:
@@ -286,10 +300,12 @@ def classify(case, out, kind):
 
 
 def describe(case, out):
-    return f"read dom={case.get('dom', True)} chars={len(case['text'])} charts={case['text'].count('#NOTES')} -> {'exception ' + out.get('exc', '') if out.get('v') is None else 'ok'}"
+    return f"read{'_file' if case.get('file') else ''} dom={case.get('dom', True)} chars={len(case['text'])} charts={case['text'].count('#NOTES')} -> {'exception ' + out.get('exc', '') if out.get('v') is None else 'ok'}"
 
 
 def shrink(case):
+    if case.get("file"):
+        c = dict(case); del c["file"]; yield c
     lines = case["text"].split("\n")
     for i in range(len(lines)):
         c = dict(case)
